@@ -60,6 +60,11 @@ type Scenario struct {
 	Name  string `json:"name"`
 	Cfg   Config `json:"cfg"`
 	Steps []Step `json:"steps"`
+	// RPCs and Policy: scripted applications scheduled online (after Steps).
+	RPCs   []RPCScript `json:"rpcs,omitempty"`
+	Policy *Policy     `json:"policy,omitempty"`
+	// Late: scripts that join the schedule only after the first fault fired.
+	Late []RPCScript `json:"late,omitempty"`
 	// Meta is copied to the trace header for the orchestrator.
 	Meta map[string]any `json:"meta,omitempty"`
 }
